@@ -1,3 +1,5 @@
+//! NOTE: NOT registered in C13.py — kani-compiler 0.68 panics while compiling these harnesses
+//! (intrinsics.rs:243, `output.kind() == Int(I32)`); kept for a later tool version / investigation.
 //! C13 — `SpecRoutingLogic::route` (routing/spec.rs): delivery only in the destination AS,
 //! unsupported path types are dropped. Hooked at the end of `routing/spec.rs`.
 //!
